@@ -11,6 +11,17 @@ func isStrConst(t *Term) bool { return t.op == OpConst && t.sort == SStr }
 
 // Concat builds a flat concatenation; adjacent constants are merged, adjacent
 // liftable parts are merged while the product stays small.
+var concatLiftLimit = 8
+
+// ConcatSeg concatenates pieces of one separator-free segment; such pieces are
+// lifted together more eagerly (segments are short tokens).
+func ConcatSeg(parts ...*Term) *Term {
+	old := concatLiftLimit
+	concatLiftLimit = 2048
+	defer func() { concatLiftLimit = old }()
+	return Concat(parts...)
+}
+
 func Concat(parts ...*Term) *Term {
 	var flat []*Term
 	for _, p := range parts {
@@ -23,35 +34,55 @@ func Concat(parts ...*Term) *Term {
 			flat = append(flat, p)
 		}
 	}
-	// SegStr absorbs what follows it
-	for i, p := range flat {
+	// segmented strings absorb their neighbours
+	hasSeg := false
+	for _, p := range flat {
 		if p.op == OpSegStr {
-			if i != 0 {
-				// prefix ++ segstr: convert prefix to segstr too
-				pre := Concat(flat[:i]...)
-				if ps := toSegStr(pre, p.s[0]); ps != nil {
-					r := ps
-					for _, q := range flat[i:] {
-						r = segStrAppend(r, q)
-						if r == nil {
-							break
-						}
-					}
-					if r != nil {
-						return r
-					}
-				}
-				unsupported("concat: prefix before segmented string")
-			}
-			r := p
-			for _, q := range flat[1:] {
-				r = segStrAppend(r, q)
-				if r == nil {
-					unsupported("concat: cannot append %v to segmented string", q)
-				}
-			}
-			return r
+			hasSeg = true
 		}
+	}
+	if hasSeg {
+		var sep byte
+		for _, p := range flat {
+			if p.op == OpSegStr {
+				sep = p.s[0]
+			}
+		}
+		var acc *Term
+		var pend []*Term // plain parts before the first SegStr / between
+		flush := func() {
+			if len(pend) == 0 {
+				return
+			}
+			pl := Concat(pend...)
+			pend = nil
+			if isStrConst(pl) && pl.s == "" {
+				return
+			}
+			if acc == nil {
+				acc = toSegStr(pl, sep)
+				if acc == nil {
+					unsupported("concat: part before a segmented string may contain the separator")
+				}
+				return
+			}
+			acc = segCat(acc, pl)
+		}
+		for _, p := range flat {
+			if p.op == OpSegStr {
+				flush()
+				if acc == nil {
+					acc = p
+				} else {
+					acc = segCat(acc, p)
+				}
+			} else {
+				pend = append(pend, p)
+			}
+		}
+		flush()
+		n, segs := segParts(acc)
+		return mkSegStr(sep, n, segs)
 	}
 	var out []*Term
 	for _, p := range flat {
@@ -60,7 +91,7 @@ func Concat(parts ...*Term) *Term {
 		}
 		if n := len(out); n > 0 && out[n-1].Liftable() && p.Liftable() {
 			a, b := out[n-1], p
-			if (a.op == OpConst || b.op == OpConst) || len(casesOf(a))*len(casesOf(b)) <= 8 {
+			if (a.op == OpConst || b.op == OpConst) || len(casesOf(a))*len(casesOf(b)) <= concatLiftLimit {
 				out[n-1] = lift(SStr, func(cs []*Term) *Term { return Str(cs[0].s + cs[1].s) }, a, b)
 				continue
 			}
@@ -155,14 +186,14 @@ func splitConcat(t *Term, sep byte) ([]*Term, bool) {
 	for _, p := range parts {
 		if isStrConst(p) {
 			ss := strings.Split(p.s, string(sep))
-			segs[len(segs)-1] = Concat(segs[len(segs)-1], Str(ss[0]))
+			segs[len(segs)-1] = ConcatSeg(segs[len(segs)-1], Str(ss[0]))
 			for _, s := range ss[1:] {
 				segs = append(segs, Str(s))
 			}
 			continue
 		}
 		if noByte(p, sep) {
-			segs[len(segs)-1] = Concat(segs[len(segs)-1], p)
+			segs[len(segs)-1] = ConcatSeg(segs[len(segs)-1], p)
 			continue
 		}
 		if p.op == OpCases {
@@ -179,7 +210,7 @@ func splitConcat(t *Term, sep byte) ([]*Term, bool) {
 				jj := j
 				piece := lift(SStr, func(cs []*Term) *Term { return Str(strings.Split(cs[0].s, string(sep))[jj]) }, p)
 				if j == 0 {
-					segs[len(segs)-1] = Concat(segs[len(segs)-1], piece)
+					segs[len(segs)-1] = ConcatSeg(segs[len(segs)-1], piece)
 				} else {
 					segs = append(segs, piece)
 				}
@@ -246,14 +277,53 @@ func segStrAppend(s *Term, q *Term) *Term {
 	}
 	for _, c := range casesOf(n) {
 		L := int(c.V.i)
+		if L < 1 {
+			unsupported("segmented string with %d segments", L)
+		}
 		// last segment extended by first of q
-		out[L-1] = Ite(c.G, Concat(getSeg(segs, L-1), qsegs[0]), out[L-1])
+		out[L-1] = Ite(c.G, ConcatSeg(getSeg(segs, L-1), qsegs[0]), out[L-1])
 		for j := 1; j < len(qsegs); j++ {
 			out[L-1+j] = Ite(c.G, qsegs[j], out[L-1+j])
 		}
 	}
 	nn := BVBin(OpBVAdd, n, BV(int64(len(qsegs)-1)))
 	return mkSegStr(sep, nn, out)
+}
+
+// segCat concatenates two strings, at least one side with a constant segment count.
+func segCat(a, b *Term) *Term {
+	sep := a.s[0]
+	na, sa := segParts(a)
+	if na.op == OpConst {
+		var bs *Term
+		if b.op == OpSegStr {
+			bs = b
+		} else {
+			bs = toSegStr(b, sep)
+		}
+		if bs == nil || bs.s[0] != sep {
+			unsupported("concat: cannot segment %v", b)
+		}
+		nb, sb := segParts(bs)
+		k := int(na.i)
+		out := make([]*Term, 0, k+len(sb))
+		out = append(out, sa[:k-1]...)
+		out = append(out, ConcatSeg(sa[k-1], getSeg(sb, 0)))
+		if len(sb) > 1 {
+			out = append(out, sb[1:]...)
+		}
+		n := BVBin(OpBVAdd, nb, BV(int64(k-1)))
+		args := append([]*Term{n}, out...)
+		return mkApp(OpSegStr, SStr, string(sep), args...)
+	}
+	r := segStrAppend(a, b)
+	if r == nil {
+		unsupported("concat: cannot append %v to a segmented string", b)
+	}
+	if r.op != OpSegStr {
+		r = toSegStr(r, sep)
+	}
+	return r
 }
 
 func getSeg(segs []*Term, i int) *Term {
@@ -264,10 +334,10 @@ func getSeg(segs []*Term, i int) *Term {
 }
 
 func iteSegStr(c, a, b *Term) *Term {
-	var sep byte
+	var sep byte = '/'
 	if a.op == OpSegStr {
 		sep = a.s[0]
-	} else {
+	} else if b.op == OpSegStr {
 		sep = b.s[0]
 	}
 	sa, sb := toSegStr(a, sep), toSegStr(b, sep)
